@@ -346,11 +346,11 @@ pub fn property() -> Property {
         rule: "proptest-generated (civil value, span | signed duration | std duration) pairs with per-unit magnitudes drawn up to the documented Span limits (limit, limit-1, powers of two, small, uniform), both signs, unit-mix classes; checked/saturating/wrapping/operator forms and *Series. Oracle: reference interpreter on day numbers and i128 nanoseconds-of-day (refarith.rs). Non-trivial: a unit >= 2^31 or time total >= 2^63 ns, a month-end clamp, a midnight crossing, an out-of-range outcome or a result within 2 days of a limit; counted via a fingerprint set.",
         assumptions: &["refarith.rs/refcal.rs", "years/months in a span added to a Time are ignored, days/weeks are whole multiples of 24h (documented)"],
         checks: vec![
-            Box::new(Prop { name: "c08.date_span", quick: 600_000, thorough: 40_000_000, strategy: strat_dt_span, test: test_date_span }),
-            Box::new(Prop { name: "c08.datetime_span", quick: 600_000, thorough: 40_000_000, strategy: strat_dt_span, test: test_datetime_span }),
-            Box::new(Prop { name: "c08.time_span", quick: 600_000, thorough: 40_000_000, strategy: strat_time_span, test: test_time_span }),
-            Box::new(Prop { name: "c08.durations", quick: 600_000, thorough: 40_000_000, strategy: strat_durations, test: test_durations }),
-            Box::new(Prop { name: "c08.series", quick: 100_000, thorough: 5_000_000, strategy: strat_series, test: test_series }),
+            Box::new(Prop { name: "c08.date_span", quick: 2_400_000, thorough: 40_000_000, strategy: strat_dt_span, test: test_date_span }),
+            Box::new(Prop { name: "c08.datetime_span", quick: 2_400_000, thorough: 40_000_000, strategy: strat_dt_span, test: test_datetime_span }),
+            Box::new(Prop { name: "c08.time_span", quick: 2_400_000, thorough: 40_000_000, strategy: strat_time_span, test: test_time_span }),
+            Box::new(Prop { name: "c08.durations", quick: 2_400_000, thorough: 40_000_000, strategy: strat_durations, test: test_durations }),
+            Box::new(Prop { name: "c08.series", quick: 400_000, thorough: 5_000_000, strategy: strat_series, test: test_series }),
         ],
         floors: |rec| {
             rec.floor("c08.date_span:out-of-range", "c08.date_span:cases", 0.05);
